@@ -535,8 +535,28 @@ fn c19_seg_point(r: &mut Rng, out: &mut Out) {
             let l = 1e-6 * probe(r);
             (f.place((0., 0.)), f.place((l, 0.)))
         }
+        4 | 5 => {
+            // a segment along one coordinate axis whose other two components carry rounding noise (a few ulps, as a right-angle
+            // rotation leaves behind): the component used to interpolate along the segment must be the dominant one
+            let major = r.below(3);
+            let mut pa = [r.nice(8.) as Float, r.nice(8.) as Float, r.nice(8.) as Float];
+            for k in 0..3 {
+                if pa[k] == 0. {
+                    pa[k] = 6.3;
+                }
+            }
+            let mut pb = pa;
+            pb[major] = pa[major] + (len as Float) * r.sign();
+            for k in 0..3 {
+                if k != major {
+                    pb[k] = ulps(pa[k], r.below(4) as i64 - 1);
+                }
+            }
+            (Point3D::new(pa[0], pa[1], pa[2]), Point3D::new(pb[0], pb[1], pb[2]))
+        }
         _ => (f.place((0., 0.)), f.place((len, 0.))),
     };
+    let noisy_axis = kind == 4 || kind == 5;
     let ab = b - a;
     let dirn = if ab.length() > 0. { ab.get_normalized() } else { f.u };
     let perp = match dirn.get_perpendicular() {
@@ -570,6 +590,22 @@ fn c19_seg_point(r: &mut Rng, out: &mut Out) {
             e + perp * ((1e-5 * probe(r)) as Float * 0.5) + dirn * ((1e-5 * probe(r)) as Float)
         }
         _ => on,
+    };
+    // on a noisy axis segment: the query's minor components are the start's, a few ulps off the other way
+    let p = if noisy_axis && r.bool() {
+        let tt = if r.bool() { 0.2 + 0.6 * r.unit() } else { r.pick(&[1.5, 2.5, -0.5, -3.]) };
+        let on = a + ab * (tt as Float);
+        let mut q = [on.x, on.y, on.z];
+        let aa = [a.x, a.y, a.z];
+        let abv = [ab.x, ab.y, ab.z];
+        for k in 0..3 {
+            if abv[k].abs() < 1e-9 {
+                q[k] = ulps(aa[k], 1 - r.below(4) as i64);
+            }
+        }
+        Point3D::new(q[0], q[1], q[2])
+    } else {
+        p
     };
     let s = Segment3D::new(a, b);
     if r.below(3) != 0 {
